@@ -36,6 +36,21 @@ func (w *World) SetupPools(n int) error {
 	return nil
 }
 
+// restingTick reports the tick (cur or cur+1) whose sqrt price is exactly the pool's current sqrt price.
+func (w *World) restingTick(p PoolInfo, cur int64, sqrtPrice string) (int64, bool) {
+	if sqrtPrice == "" {
+		return 0, false
+	}
+	tp := lptypes.TickParams{PriceRatio: p.Ratio, BaseOffset: p.Offset}
+	for _, t := range []int64{cur + 1, cur} {
+		sp, err := lptypes.TickToSqrtPrice(t, tp)
+		if err == nil && sp.String() == sqrtPrice {
+			return t, true
+		}
+	}
+	return 0, false
+}
+
 // ratioPow returns ratio^k exactly.
 func ratioPow(ratio string, k int64) *big.Rat {
 	b, ok := new(big.Rat).SetString(ratio)
@@ -98,6 +113,11 @@ func (w *World) GenOp(ctx sdk.Context, p PoolInfo) Op {
 			if p.Ratio != "1.0001" && p.Ratio != "1.001" && p.Ratio != "1.002" {
 				num = big.NewInt(int64(5000 + r.Intn(15001)))
 			}
+			if r.Chance(1, 4) {
+				// a deep pool: liquidity above 10^18 per unit, so that a remainder of one or two
+				// units (the dust left after a step that ended on a tick) does not move the price
+				base = new(big.Int).Mul(r.LogUniform(6), pow10(20))
+			}
 			quote := new(big.Int).Div(new(big.Int).Mul(base, num), big.NewInt(10000))
 			if quote.Sign() == 0 {
 				quote.SetInt64(1)
@@ -121,6 +141,34 @@ func (w *World) GenOp(ctx sdk.Context, p PoolInfo) Op {
 			return Op{Kind: "swap", Sender: sender, ExactIn: true, DenomIn: r.Intn(2), Amount: r.LogUniform(12), Tag: "swap-empty-pool"}
 		}
 		return Op{Kind: "create", Sender: sender, Lower: -10, Upper: 10, Base: r.LogUniform(10), Quote: big.NewInt(0), MinBase: big.NewInt(0), MinQuote: big.NewInt(0), Tag: "first-one-sided"}
+	}
+	// the price rests exactly on a tick t (a swap ended there): cursor and price then disagree about
+	// which side of t the pool is on when the swap came from above (cursor t-1, price = price(t)).
+	// Change liquidity bounded by t in that state, half of the time.
+	if t, ok := w.restingTick(p, pool.CurrentTick, pool.CurrentSqrtPrice); ok && r.Chance(1, 2) {
+		a := int64(1 + r.Intn(int(sp)))
+		var bounded []lptypes.Position
+		for _, q := range poss {
+			if q.LowerTick == t || q.UpperTick == t {
+				bounded = append(bounded, q)
+			}
+		}
+		if len(bounded) > 0 && r.Chance(1, 2) {
+			q := bounded[r.Intn(len(bounded))]
+			owner := w.userIndex(q.Address)
+			l := raw(q.Liquidity)
+			tag := "decrease-all/on-resting-tick"
+			if r.Bool() {
+				l = new(big.Int).Div(l, big.NewInt(int64(2+r.Intn(3))))
+				tag = "decrease-part/on-resting-tick"
+			}
+			return Op{Kind: "decrease", Sender: owner, Pid: q.Id, Liq: l, Tag: tag}
+		}
+		lo, up, tag := t, t+a, "lower-on-resting-tick"
+		if r.Bool() {
+			lo, up, tag = t-a, t, "upper-on-resting-tick"
+		}
+		return Op{Kind: "create", Sender: sender, Lower: lo, Upper: up, Base: r.LogUniform(22), Quote: r.LogUniform(22), MinBase: big.NewInt(0), MinQuote: big.NewInt(0), Tag: tag}
 	}
 	k := r.Intn(100)
 	switch {
@@ -202,7 +250,7 @@ func (w *World) GenOp(ctx sdk.Context, p PoolInfo) Op {
 				if !exactIn {
 					a = out.Amount.BigInt()
 				}
-				a = new(big.Int).Add(a, big.NewInt(int64(r.Intn(3)-1)))
+				a = new(big.Int).Add(a, big.NewInt(int64(r.Intn(5)-1))) // -1, exact, +1, +2, +3 units of dust
 				if a.Sign() > 0 {
 					amt, tag = a, "swap-to-tick"
 					if !exactIn {
